@@ -98,7 +98,8 @@ KEYS = [b"a", b"b", b"\x00", b"a\x00", b"abcde", b"", b"zz"]
 def make_items(K, faults, rng):
     items = []
     for i in range(1, K + 1):
-        ops = [[rng.choice(KEYS), rng.choice([1, 1, 2, 5])] for _ in range(rng.randint(1, 3))]
+        # some items are records without keys (the callback returns a count but adds nothing)
+        ops = [[rng.choice(KEYS), rng.choice([1, 1, 2, 5])] for _ in range(rng.choice([0, 1, 1, 2, 3]))]
         items.append({"id": i, "ops": ops, "fault": faults[i], "ret": i})
     return items
 
@@ -162,7 +163,7 @@ def sketch_traces(items, per_worker, flushed, N, result, which):
         for a, b in merge_tree(N):
             ev.append({"ev": "merge", "s": a + 1, "t": b + 1})
         if not ev:
-            ev.append({"ev": "query", "s": 1, "out": "0x0.0p+0"})
+            ev.append({"ev": "query", "s": 1, "out": "0x0.0p+0", "fresh": "0x0.0p+0"})
         ev[-1]["post"] = [hllmod.proj_hll(result["hll"])]
         traces["hll"] = {"p": HLL_ARGS["p"], "seed": list(int(HLL_ARGS["seed"]).to_bytes(8, "little")), "NS": N,
                          "events": ev}
